@@ -78,6 +78,7 @@ type (
 		orderByDefinition   OrderByDefinition
 		wg                  sync.WaitGroup
 		singletonExecutions map[string]any
+		aggregates          map[string]any
 		singletonMut        sync.Mutex
 		onceMut             sync.Mutex
 		postProcessors      []func() error
@@ -1620,7 +1621,7 @@ func AggrFunExpr(query *Query, current Map, expr sqlparser.AggrFunc, opts ...Exp
 	// memoised per aggregate expression, not per function name: SUM(a) and
 	// SUM(b) in one query are different computations
 	memoKey := sqlparser.String(expr)
-	rs, ok := query.singleton(memoKey)
+	rs, ok := query.aggregate(memoKey)
 	if !ok {
 		rows := query.from
 		if all, ok := current["*"].([]any); ok {
@@ -1634,7 +1635,7 @@ func AggrFunExpr(query *Query, current Map, expr sqlparser.AggrFunc, opts ...Exp
 		if err != nil {
 			return nil, err
 		}
-		query.setSingleton(memoKey, result)
+		query.setAggregate(memoKey, result)
 		return result, nil
 	}
 	return rs, nil
@@ -1889,6 +1890,9 @@ func (query *Query) exec() (result any, err error) {
 			err = r.(error)
 		}
 	}()
+	query.singletonMut.Lock()
+	query.aggregates = nil
+	query.singletonMut.Unlock()
 	if query.dual {
 		rs, err := ExecSelect(query, query.from)
 		if err != nil {
@@ -2065,6 +2069,25 @@ func (query *Query) setSingleton(key string, value any) {
 	query.singletonMut.Lock()
 	defer query.singletonMut.Unlock()
 	query.singletonExecutions[key] = value
+}
+
+// aggregate and setAggregate hold the whole-table aggregates of the evaluation
+// in progress: they are computed over the rows that pass WHERE now, so unlike
+// the ONCE/GLOBAL memo they do not outlive it
+func (query *Query) aggregate(key string) (any, bool) {
+	query.singletonMut.Lock()
+	defer query.singletonMut.Unlock()
+	rs, ok := query.aggregates[key]
+	return rs, ok
+}
+
+func (query *Query) setAggregate(key string, value any) {
+	query.singletonMut.Lock()
+	defer query.singletonMut.Unlock()
+	if query.aggregates == nil {
+		query.aggregates = make(map[string]any)
+	}
+	query.aggregates[key] = value
 }
 
 // callFunction invokes a user function on a goroutine of its own (ASYNC, SPIN,
